@@ -321,19 +321,88 @@ def time_limit_rule(run, f, rid):
                 why.append("%s is scaled by %d" % (sorted(flds & {"tv_sec", "tv_usec"}), k))
     if not find_calls(b, callee_is("u64::saturating_add")):
         why.append("the two parts are not combined with saturating_add")
-    # zero -> u64::MAX
-    okz = False
-    for blk in b.blocks:
-        for s in blk["stmts"]:
-            if s["k"] == "assign" and s["rhs"]["k"] == "binop" and s["rhs"]["op"] in ("Eq",) and (op_const(s["rhs"]["a"]) == 0 or op_const(s["rhs"]["b"]) == 0):
-                br = bool_branch(b, cfg, du, s["lhs"]["l"], [blk["id"]])
-                if br:
-                    for x in cfg.reachable({br[0]}):
-                        for s2 in b.blocks[x]["stmts"]:
-                            if s2["k"] == "assign" and s2["rhs"]["k"] == "use" and s2["rhs"]["a"].get("v") == "18446744073709551615" and cfg.dominates(br[0], x):
-                                okz = True
-    if not okz:
-        why.append("a zero limit is not mapped to u64::MAX (unlimited)")
+    # zero -> u64::MAX, path by path: where the path established `limit == 0` (written as `0 == x`, `x != 0` with the arms
+    # swapped, an early return ..) the function returns u64::MAX; where it established `limit != 0` it does not
+    from analysis.table import PathWalker, value_on_path
+    from analysis.flow import value_root
+    MAXV = ("const", "18446744073709551615")
+
+    def zero_tests(pth):
+        """[(root local of the operand compared with 0, the comparison came out `== 0` on this path)] for the bool switches
+        the path takes, following the tested bool back through copies and `!` to its Eq/Ne-with-zero comparison"""
+        out = []
+        for i_, x in enumerate(pth[:-1]):
+            t_ = b.blocks[x]["term"]
+            if t_["k"] != "switch" or t_.get("dty") != "bool" or t_["discr"]["k"] not in ("copy", "move") or t_["discr"]["p"]["proj"]:
+                continue
+            l, neg, n_ = t_["discr"]["p"]["l"], False, 0
+            cmp_ = None
+            while n_ < 8:
+                n_ += 1
+                ds = du.defs.get(l, [])
+                if len(ds) != 1 or ds[0][2] != "assign" or ds[0][3]["lhs"]["proj"]:
+                    break
+                rv = ds[0][3]["rhs"]
+                if rv["k"] == "binop" and rv["op"] in ("Eq", "Ne"):
+                    cmp_ = rv
+                    break
+                if rv["k"] == "use" and rv["a"]["k"] in ("copy", "move") and not rv["a"]["p"]["proj"]:
+                    l = rv["a"]["p"]["l"]
+                elif rv["k"] == "unop" and rv["op"] == "Not" and rv["a"]["k"] in ("copy", "move") and not rv["a"]["p"]["proj"]:
+                    l, neg = rv["a"]["p"]["l"], not neg
+                else:
+                    break
+            if cmp_ is None:
+                continue
+            sides = [cmp_["a"], cmp_["b"]]
+            zero = [o for o in sides if op_const(o) == 0]
+            other = [o for o in sides if op_const(o) is None and o["k"] in ("copy", "move") and not o["p"]["proj"]]
+            if len(zero) != 1 or len(other) != 1:
+                continue
+            nxt = pth[i_ + 1]
+            ones = [bb for v_, bb in t_["targets"] if int(v_) == 1]
+            zeros_ = [bb for v_, bb in t_["targets"] if int(v_) == 0]
+            bval = True if nxt in ones else False if nxt in zeros_ else (bool(zeros_) if nxt == t_.get("otherwise") and bool(zeros_) != bool(ones) else None)
+            if bval is None:
+                continue
+            if neg:
+                bval = not bval
+            is_zero = bval if cmp_["op"] == "Eq" else (not bval)
+            out.append((value_root(du, other[0]["p"]["l"]), is_zero))
+        return out
+
+    def returned_root(pth):
+        """root local of the value moved into the return slot last on this path (None when it is a constant / a call result)"""
+        r = None
+        for x in pth:
+            for s_ in b.blocks[x]["stmts"]:
+                if s_["k"] == "assign" and s_["lhs"]["l"] == 0 and not s_["lhs"]["proj"]:
+                    rv = s_["rhs"]
+                    r = value_root(du, rv["a"]["p"]["l"]) if rv["k"] == "use" and rv["a"]["k"] in ("copy", "move") and not rv["a"]["p"]["proj"] else None
+        return r
+
+    n_zero = n_ex = 0
+    badz = []
+    for (pth, conds, sv) in PathWalker(b).walk(0, lambda bid, t_: ("return",) if t_["k"] == "return" else None):
+        if sv[0] != "return":
+            continue
+        n_ex += 1
+        zt = zero_tests(pth)
+        ret = value_on_path(b, pth, 0)
+        if ret == MAXV:
+            # reported as unlimited: some tested value was found to be zero on this path
+            if any(z for (_r, z) in zt):
+                n_zero += 1
+            else:
+                badz.append("unlimited is reported on a path that did not find the limit to be zero")
+        else:
+            # a computed limit is returned: it is the very value that was tested and found non-zero
+            rr = returned_root(pth)
+            if not any((not z) and r_ == rr for (r_, z) in zt):
+                badz.append("a limit is returned without having been tested against zero itself (the zero test is on another value, e.g. the raw fields before clamping)")
+    run.paths(rid, "get_time_limit/zero", b.loc(), n_ex)
+    if badz or not n_zero:
+        why.append("a zero limit is not mapped to u64::MAX (unlimited)" + (": " + "; ".join(sorted(set(badz))) if badz else ""))
     pan = [norm(t.get("callee") or "") for (_x, t) in b.calls() if norm(t.get("callee") or "").endswith(("Result::expect", "Result::unwrap"))]
     if pan:
         why.append("a conversion of the caller's timeval can panic inside an extern \"C\" frame (%s)" % pan[0].rsplit("::", 1)[1])
